@@ -148,6 +148,37 @@ func (g *Gen) genC10(n int) error {
 	for i := 0; i < n; i++ {
 		g.emit("note case %d", i)
 		g.setMode()
+		if i%97 == 4 {
+			// batches whose doc values need different numbers of chunks, built one after the other
+			var segs []string
+			for _, nd := range []int{3, 1100 + g.r.Intn(100), 2, 2100, 5} {
+				b := &BatchSpec{Name: g.fresh("b")}
+				for d := 0; d < nd; d++ {
+					id := []byte(fmt.Sprintf("%s-%d", b.Name, d))
+					doc := DocSpec{ID: id, Plain: true}
+					doc.Fields = append(doc.Fields, FieldSpec{Kind: "fld", Name: "_id", Typ: 't', Stored: true, Len: 1, Val: id, Toks: []TokSpec{{Term: id, Freq: 1}}})
+					doc.Fields = append(doc.Fields, FieldSpec{Kind: "fld", Name: "body", Typ: 't', Len: 1, DV: true, Toks: []TokSpec{{Term: []byte(fmt.Sprintf("t%d", d%3)), Freq: 1}}})
+					b.Docs = append(b.Docs, doc)
+				}
+				g.emitBatch(b)
+				s := g.fresh("s")
+				g.emit("build %s %s", s, b.Name)
+				g.newBuilt(s, b)
+				f := g.fresh("f")
+				g.emit("persist %s %s", s, f)
+				if nd < 10 {
+					g.emit("dumpfile %s", f)
+				}
+				g.emit("q dvfields %s", s)
+				for _, d := range []int{0, nd - 1, nd / 2} {
+					g.emit("q dv %s - fields=body doc=%d", s, d)
+				}
+				segs = append(segs, s)
+			}
+			g.st("seq.dvchunks")
+			g.st("case")
+			continue
+		}
 		k := 2 + g.r.Intn(4)
 		var segs []string
 		for j := 0; j < k; j++ {
